@@ -1,5 +1,6 @@
 // C15 — Bloom filter: no false negatives in any representation; bitwise set algebra.
 // Bit-level model driven by the reference XXH64; owned and caller-memory filters; every view checked.
+#include <set>
 #include "vf/core.hpp"
 #include "vf/gen.hpp"
 #include "vf/refhash.hpp"
@@ -269,11 +270,78 @@ static void fpp_case(Rng& r) {
   sig(mix64(n, fp));
 }
 
+
+// A legal filter of 2^32 bits or more (512 MB): capacities and bit indices no longer fit 32 bits.  The model is
+// sparse (set of expected bit positions from the reference hash), the views are made one at a time to bound memory.
+static void giant_filter_case(Rng& r) {
+  const uint64_t nbits = (uint64_t(1) << 32) + 64 * uint64_t(r.range(1 << 20, 1 << 24));   // 2^32 + 2^26 .. 2^32 + 2^30 bits (up to 640 MB)
+  const uint16_t nh = uint16_t(r.range(2, 5));
+  const uint64_t seed = r.next();
+  const std::string ctx = "giant nbits=" + std::to_string(nbits) + " nh=" + std::to_string(nh) + " seed=" + std::to_string(seed);
+  describe(ctx);
+  std::set<uint64_t> pos;
+  auto positions = [&](uint64_t item, std::vector<uint64_t>& out) {
+    uint8_t by[8]; for (int i = 0; i < 8; ++i) by[i] = uint8_t(item >> (8 * i));
+    const uint64_t h0 = ref_xxh64(by, 8, seed), h1 = ref_xxh64(by, 8, h0);
+    out.clear();
+    for (uint64_t i = 1; i <= nh; ++i) out.push_back(((h0 + i * h1) >> 1) % nbits);
+  };
+  auto model_has = [&](uint64_t item) { std::vector<uint64_t> ix; positions(item, ix); for (auto i : ix) if (!pos.count(i)) return false; return true; };
+  std::vector<uint64_t> items;
+  std::unique_ptr<bloom_filter> f(new bloom_filter(bloom_filter::builder::create_by_size(nbits, nh, seed)));
+  VF_CHECK(f->get_capacity() == nbits && f->is_empty(), "bloom|giant|live|config", ctx + " capacity=" + std::to_string(f->get_capacity()));
+  bool above32 = false;
+  for (int i = 0; i < 600; ++i) {
+    const uint64_t it = r.next();
+    std::vector<uint64_t> ix; positions(it, ix);
+    const bool before = model_has(it);
+    const bool got = (i & 1) ? f->query_and_update(it) : (f->update(it), before);
+    VF_CHECK(got == before, "bloom|giant|live|query_and_update-differs-from-bit-model", ctx);
+    for (auto x : ix) { pos.insert(x); if (x >> 32) above32 = true; }
+    items.push_back(it);
+  }
+  if (above32) count("giant_bit_index_above_2p32");
+  auto check = [&](const bloom_filter& v, const std::string& view) {
+    const std::string K = "bloom|giant|" + view + "|";
+    VF_CHECK(v.get_capacity() == nbits && v.get_num_hashes() == nh && v.get_seed() == seed, K + "config", ctx + " capacity=" + std::to_string(v.get_capacity()));
+    VF_CHECK(!v.is_empty(), K + "is_empty", ctx);
+    for (auto it : items) { checked(); if (!v.query(it)) { fail(K + "false-negative", ctx + " item=" + std::to_string(it)); break; } }
+    for (int i = 0; i < 300; ++i) { const uint64_t p = r.next(); checked(); if (v.query(p) != model_has(p)) { fail(K + "query-differs-from-bit-model", ctx); break; } }
+  };
+  check(*f, "live");
+  VF_CHECK(f->get_bits_used() == pos.size(), "bloom|giant|live|bits_used", ctx + " got=" + std::to_string(f->get_bits_used()) + " model=" + std::to_string(pos.size()));
+  auto img = f->serialize();
+  f.reset();
+  const uint64_t want_len = 32 + nbits / 8;
+  VF_CHECK(img.size() == want_len, "bloom|giant|image|image-size", ctx + " len=" + std::to_string(img.size()));
+  if (img.size() != want_len) return;
+  VF_CHECK(uint64_t(rd32le(img.data() + 16)) * 64 == nbits, "bloom|giant|image|length-field", ctx);
+  {
+    uint64_t pc = 0; const uint64_t* w = reinterpret_cast<const uint64_t*>(img.data() + 32);
+    for (uint64_t i = 0; i < nbits / 64; ++i) if (w[i]) pc += uint64_t(__builtin_popcountll(w[i]));
+    bool all = true; for (auto x : pos) if (!(img[32 + (x >> 3)] & (1 << (x & 7)))) { all = false; break; }
+    VF_CHECK(pc == pos.size() && all, "bloom|giant|image|bit-array-differs-from-model", ctx + " popcount=" + std::to_string(pc) + " model=" + std::to_string(pos.size()));
+  }
+  { bloom_filter w = bloom_filter::wrap(img.data(), img.size()); check(w, "wrap-of-image"); VF_CHECK(w.get_bits_used() == pos.size(), "bloom|giant|wrap-of-image|bits_used", ctx); }
+  {
+    bloom_filter w = bloom_filter::writable_wrap(img.data(), img.size());
+    check(w, "writable-wrap-of-image");
+    const uint64_t it = r.next(); std::vector<uint64_t> ix; positions(it, ix);
+    w.update(it); items.push_back(it); for (auto x : ix) pos.insert(x);
+    bool all = true; for (auto x : ix) if (!(img[32 + (x >> 3)] & (1 << (x & 7)))) all = false;
+    VF_CHECK(all, "bloom|giant|writable-wrap-of-image|update-not-in-caller-memory", ctx);
+  }
+  { bloom_filter d = bloom_filter::deserialize(img.data(), img.size()); check(d, "deserialized-bytes"); VF_CHECK(d.get_bits_used() == pos.size(), "bloom|giant|deserialized-bytes|bits_used", ctx + " got=" + std::to_string(d.get_bits_used())); }
+  count("giant_filter_cases");
+  sig(mix64(nbits, pos.size()));
+}
+
 static void run_body(uint64_t idx, Rng& r);
 void run_case(uint64_t idx, Rng& r) { try { run_body(idx, r); } catch (const CaseAbort&) { count("cases_aborted_after_violation"); } }
 
 static void run_body(uint64_t idx, Rng& r) {
   if (idx % 40 == 13) { fpp_case(r); return; }
+  if (idx % 2000 == 777) { giant_filter_case(r); return; }
   const bool T = G().thorough();
   const uint64_t nbits = r.chance(0.3) ? uint64_t(r.range(1, 200)) : (r.chance(0.5) ? 64 * uint64_t(r.range(1, 64)) : uint64_t(r.range(65, T ? 60000 : 9000)));
   const uint16_t nh = uint16_t(r.chance(0.8) ? r.range(1, 7) : r.range(8, 20));
